@@ -1688,6 +1688,15 @@ def check_c10_c11(c, result):
         cases.append(querygen.render(toks, rng, 'plain'))
         for _ in range(3):
             cases.append(querygen.render(mutate_tokens(toks, rng), rng, rng.choice(['plain', 'plain', 'wild'])))
+    # identifiers spelled like words of OTHER languages involved (the condition evaluator's operators and constants, Java
+    # and SQL keywords, the grammar's own keywords in another case): the grammar reserves none of them, so as aliases,
+    # predicate names and parameter names they make sentences with exactly the written structure
+    for w_ in ('nil', 'true', 'false', 'and', 'or', 'not', 'let', 'matches', 'contains', 'startsWith', 'endsWith', 'len', 'null', 'class', 'select', 'from', 'where', 'As', 'Predicate', 'int', 'string', 'LIKE2', '_', 'x1'):
+        t1 = 'FROM class_declaration AS %s SELECT %s' % (w_, w_)
+        t2 = 'predicate %s(class_declaration %s) { %s.getName() == "a" } FROM class_declaration AS c WHERE %s(c) SELECT c' % (w_, w_, w_, w_)
+        cases += [t1, t2]
+        written[t1] = dict(frm='%s:%s' % (hx_('class_declaration'), hx_(w_)), preds='', select='variable:' + hx_(w_))
+        written[t2] = dict(frm='%s:%s' % (hx_('class_declaration'), hx_('c')), select='variable:' + hx_('c'), preds='%s(%s:%s)' % (hx_(w_), hx_('class_declaration'), hx_(w_)))
     # a literal that ends in an escaped backslash, followed by things that depend on knowing where literals end
     # (a later literal with a run of blanks, `in` laid out with a tab / line break), in layouts that are and are not
     # already normal
